@@ -600,6 +600,100 @@ def check_eager_renormalize(r, repo, rule="R12.4", sizes=(2, 3, 4, 5)):
 
 
 
+def check_nztopk(r, repo, rule="R12.5", sizes=(1, 2, 3, 4, 5)):
+    """nztopk(ctx, seq, k) - the step that moves the zero items of the functional renormalize to the tail - is interpreted
+    (sa/absint.py) for every list length n, every pattern of zero / non-zero items and every k in 1..n+2, with `select`,
+    `logical_and`, `!=` and the integer counters evaluated concretely per pattern: the result must be the non-zero items in
+    their order followed by zeros, min(k, n) items long.  A shortcut that returns the list as it is (seed C12f, for k > n)
+    leaves zeros in front of non-zero items: the expansion is not in normal form and a second pass does not repair it."""
+    import itertools
+    from sa.absint import Interp, Closure, Unsupported as IUnsupported, PyRaise
+
+    g = repo.func(AP, "nztopk")
+
+    class Item:
+        __absint_host__ = True
+
+        def __init__(self, name, nonzero):
+            self.name, self.nonzero = name, nonzero
+
+        def __ne__(self, o):
+            if isinstance(o, Item) and o.name == "0":
+                return self.nonzero
+            return NotImplemented
+
+        def __eq__(self, o):
+            if isinstance(o, Item) and o.name == "0":
+                return not self.nonzero
+            return NotImplemented
+
+        def __hash__(self):
+            return id(self)
+
+        def __add__(self, o):
+            if not isinstance(o, Item):
+                return NotImplemented
+            if self.name == "0":
+                return o
+            if o.name == "0":
+                return self
+            return Item(f"({self.name}+{o.name})", True)
+
+        __radd__ = __add__
+
+        def __repr__(self):
+            return self.name
+
+    ZERO = Item("0", False)
+
+    class Ctx:
+        __absint_host__ = True
+
+        def constant(self, v, like=None):
+            if isinstance(like, Item):
+                if v != 0:
+                    raise IUnsupported("non-zero item constant")
+                return ZERO
+            return int(v)
+
+        def select(self, c, a, b):
+            if not isinstance(c, bool):
+                raise IUnsupported(f"select on a non-boolean {c!r}")
+            return a if c else b
+
+        def logical_and(self, a, b):
+            return bool(a) and bool(b)
+
+        def logical_or(self, a, b):
+            return bool(a) or bool(b)
+
+        def logical_not(self, a):
+            return not a
+
+    n_cases = 0
+    bad = None
+    for n in sizes:
+        for pat in itertools.product((True, False), repeat=n):
+            for k in range(1, n + 3):
+                seq = [Item(f"x{i}", pat[i]) if pat[i] else Item(f"z{i}", False) for i in range(n)]
+                I = Interp(repo)
+                try:
+                    out = I.call(Closure(g, {}, I, AP, bound_self=None), [Ctx(), list(seq), k])
+                except (IUnsupported, PyRaise, TypeError) as e:
+                    raise AnalysisError(f"{AP}::nztopk is not interpretable for n={n}, k={k}: {getattr(e, 'what', e)}")
+                n_cases += 1
+                nz = [it.name for it in seq if it.nonzero]
+                want = (nz + ["0"] * n)[: min(k, n)]
+                got = [("0" if (isinstance(o, Item) and not o.nonzero) else getattr(o, "name", repr(o))) for o in out] if isinstance(out, list) else None
+                if got != want and bad is None:
+                    bad = (n, k, ["x" if p_ else "0" for p_ in pat], got, want)
+    r.ob(rule, f"{AP}::nztopk moves the zero items to the tail (n <= {max(sizes)}, every zero pattern, k = 1..n+2)", bad is None,
+         "" if bad is None else f"nztopk of the pattern {bad[2]} with k={bad[1]} returns {bad[3]}, expected {bad[4]}: zeros are left in front of non-zero items, so the functional "
+         "renormalize (and add / subtract / multiply / square, which pass the maximal size of the dtype as k) does not return a normal form", loc(AP, g),
+         sample=dict(rule=rule, cases=n_cases))
+
+
+
 def run(repo, tier):
     r = Report("C12", tier, repo, level="other", design_ref="§3/C12")
     r.explanation = (
@@ -618,12 +712,14 @@ def run(repo, tier):
     r.rule("R12.1", "functional renormalize: in every case split, sum(outputs) == sum(inputs) exactly (affine-equality domain)", floor=8)
     r.rule("R12.3", "add/subtract/multiply/square hand renormalize a list whose exact sum is the exact sum/difference/product/square (two_prod and vecsum summarised by their error-free contracts)", floor=40)
     r.rule("R12.4", "eager renormalize on every sequence of is-nonzero decisions: the unlimited result sums to the input sum, and a size limit returns a prefix of the unlimited result", floor=20)
+    r.rule("R12.5", "nztopk returns the non-zero items in order followed by zeros for every zero pattern and every k (zeros at the tail of the functional normal form)", floor=1)
     r.rule("R12.2", "maximal expansion size tables equal (maxexp - minexp - machep) // (-negep - 1) for float16/32/64", floor=3)
 
     for rel in (AP, "floating_point_algorithms.py", "context.py", "expr.py"):
         repo.source(rel)
     check_product_accounting(r, repo, sizes=(1, 2, 3) if tier == "quick" else (1, 2, 3, 4, 5))
     check_eager_renormalize(r, repo, sizes=(2, 3, 4, 5) if tier == "quick" else (2, 3, 4, 5, 6, 7))
+    check_nztopk(r, repo, sizes=(1, 2, 3, 4, 5) if tier == "quick" else (1, 2, 3, 4, 5, 6, 7))
     fa = load_package(repo.root)
     from ir import normal
     apmath = fa.apmath
